@@ -13,8 +13,12 @@
        keeps its initial value (in find_line the corresponding branch sets it to the block
        end): finding F3a; and (Done, None) when the line starts on the first byte of a block
        other than block zero.
-   The second pass of blockzero_analysis_syslines (taken only when more than one pattern
-   matched) repeats the first on cached data and is not modelled. *)
+   `gate` (Section Dated) is the analysis for ONE line-level oracle `dated` (no pattern
+   bookkeeping); `gate2` (Section Gate2, below) is the complete analysis: per-row pattern
+   counts (dt_patterns_counts), the try order of parse_datetime_in_line, the
+   parse_datetime_in_line LRU cache, dt_patterns_analysis (highest count, lowest index on a
+   tie) and the second pass taken when more than one pattern matched.  Section Ez is
+   find_datetime_in_line with the EZCHECK pre-filters and their counters. *)
 From S4.Base Require Import Bytes Chunk.
 From S4.Gen Require Import BlockConsts.
 From S4.Model Require Import Lines.
@@ -153,3 +157,352 @@ Section Dated.
         | _, _ => GatePanic                     (* RangeMap::get(..).unwrap() *)
         end.
 End Dated.
+
+
+(* ======================================================================================
+   The complete block-zero analysis: pattern bookkeeping, analysis, second pass
+   ====================================================================================== *)
+
+(* dt_patterns_counts : BTreeMap<row index, count>, ascending keys *)
+Definition counts := list (N * N).
+
+Definition counts_init (rows : list N) : counts := map (fun r => (r, 0)) rows.
+
+(* dt_patterns_update; None = the panic! "index not present in self.dt_patterns_counts" *)
+Fixpoint counts_incr (c : counts) (r : N) : option counts :=
+  match c with
+  | [] => None
+  | (k, n) :: t =>
+      if k =? r then Some ((k, n + 1) :: t)
+      else match counts_incr t r with Some t' => Some ((k, n) :: t') | None => None end
+  end.
+
+(* itertools sorted_by(|a, b| Ord::cmp(&b.1, &a.1)): STABLE sort by count, descending; the
+   result of a stable sort is unique, insertion sort computes it *)
+Fixpoint ins_desc (x : N * N) (l : counts) : counts :=
+  match l with
+  | [] => [x]
+  | y :: t => if snd x <? snd y then y :: ins_desc x t else x :: y :: t
+  end.
+Fixpoint sort_desc (c : counts) : counts :=
+  match c with
+  | [] => []
+  | x :: t => ins_desc x (sort_desc t)
+  end.
+(* the order in which parse_datetime_in_line tries the rows *)
+Definition try_order (c : counts) : list N := map fst (sort_desc c).
+
+(* dt_patterns_counts_in_use *)
+Definition in_use (c : counts) : N := lenN (filter (fun x => 0 <? snd x) c).
+
+(* dt_patterns_analysis: None = `return false` (no pattern was counted) *)
+Definition counts_max (c : counts) : N := fold_left (fun a x => N.max a (snd x)) c 0.
+Definition analysis (c : counts) : option counts :=
+  let m := counts_max c in
+  if m =? 0 then None
+  else Some (firstn (N.to_nat dt_pattern_max) (filter (fun x => m <=? snd x) c)).   (* retain; pop_last *)
+
+(* dt_pattern_index_max_count after the analysis: first of dt_patterns_indexes *)
+Definition chosen_row (c : counts) : option N :=
+  match sort_desc c with (k, _) :: _ => Some k | [] => None end.
+
+(* the `lru` crate: get promotes the entry; put inserts in front and evicts the least
+   recently used entry beyond the capacity *)
+Definition lru (V : Type) := list (N * V).
+Fixpoint lru_find {V} (k : N) (l : lru V) : option V :=
+  match l with
+  | [] => None
+  | (k', v) :: t => if k' =? k then Some v else lru_find k t
+  end.
+Definition lru_del {V} (k : N) (l : lru V) : lru V := filter (fun e => negb (fst e =? k)) l.
+Definition lru_get {V} (k : N) (l : lru V) : option (V * lru V) :=
+  match lru_find k l with
+  | Some v => Some (v, (k, v) :: lru_del k l)
+  | None => None
+  end.
+Definition lru_put {V} (cap : N) (k : N) (v : V) (l : lru V) : lru V :=
+  firstnN cap ((k, v) :: lru_del k l).
+
+Section Rows.
+  (* ORACLE: the instant row r's pattern gives the line (regex on the row's slice + conversion) *)
+  Variable dated_by_row : N -> list N -> option Z.
+
+  (* find_datetime_in_line without the EZCHECK pre-filters: first row of the order that dates the line *)
+  Fixpoint find_dt (order : list N) (l : list N) : option (Z * N) :=
+    match order with
+    | [] => None
+    | r :: t => match dated_by_row r l with
+                | Some dt => Some (dt, r)
+                | None => find_dt t l
+                end
+    end.
+
+  (* parse_datetime_in_line on the current counts (DATETIME_STR_MIN pre-check included) *)
+  Definition parse_plain (c : counts) (l : list N) : option (Z * N) :=
+    if lenN l <? datetime_str_min then None else find_dt (try_order c) l.
+End Rows.
+
+Section Gate2.
+  (* parse_datetime_in_line as a function of dt_patterns_counts and the line: (instant, row) *)
+  Variable parse : counts -> list N -> option (Z * N).
+
+  (* the SyslineReader state the analysis depends on.  p_trace: every real parse call (LRU
+     miss), newest first: (counts at the call, line begin, line end exclusive) *)
+  Record pst := mkPst { p_counts : counts; p_lru : lru (Z * N); p_panic : bool;
+                        p_trace : list (counts * N * N) }.
+
+  (* parse_datetime_in_line_cached: a cache hit does NOT call dt_patterns_update *)
+  Definition parse_cached (f : file) (st : pst) (b e1 : N) : pst * option (Z * N) :=
+    match lru_get b (p_lru st) with
+    | Some (v, l') => (mkPst (p_counts st) l' (p_panic st) (p_trace st), Some v)
+    | None =>
+        let tr := (p_counts st, b, e1) :: p_trace st in
+        match parse (p_counts st) (slice f b e1) with
+        | None => (mkPst (p_counts st) (p_lru st) (p_panic st) tr, None)
+        | Some (dt, r) =>
+            match counts_incr (p_counts st) r with
+            | Some c' => (mkPst c' (lru_put parse_lru_sz b (dt, r) (p_lru st)) (p_panic st) tr, Some (dt, r))
+            | None => (mkPst (p_counts st) (p_lru st) true tr, Some (dt, r))
+            end
+        end
+    end.
+
+  (* find_sysline_in_block_year: loop B *)
+  Fixpoint sib2_loop_b (fuel : nat) (bs : N) (f : file) (st : pst) (fo1 sl_end : N) : pst * option N :=
+    match fuel with
+    | O => (st, None)
+    | S k =>
+        match find_line_in_block_seq bs f fo1 with
+        | LFound b e =>
+            match parse_cached f st b (e + 1) with
+            | (st', None) => sib2_loop_b k bs f st' (e + 1) e
+            | (st', Some _) => (st', Some fo1)
+            end
+        | _ => (st, if fo1 <? lenN f - 1 then None else Some (sl_end + 1))
+        end
+    end.
+
+  (* loop A then loop B *)
+  Fixpoint sib2_loop_a (fuel : nat) (bs : N) (f : file) (st : pst) (fo1 : N) : pst * sibres :=
+    match fuel with
+    | O => (st, SDone false)
+    | S k =>
+        match find_line_in_block_seq bs f fo1 with
+        | LFound b e =>
+            match parse_cached f st b (e + 1) with
+            | (st', Some _) =>
+                if e =? lenN f - 1 then (st', SFound (e + 1))
+                else match sib2_loop_b fuel bs f st' (e + 1) e with
+                     | (st'', Some fo_b) => (st'', SFound fo_b)
+                     | (st'', None) => (st'', SDone true)
+                     end
+            | (st', None) => sib2_loop_a k bs f st' (e + 1)
+            end
+        | LPartial b e =>
+            match parse_cached f st b (e + 1) with
+            | (st', Some _) => (st', SDone true)
+            | (st', None) => (st', SDone false)
+            end
+        | LNone => (st, SDone false)
+        end
+    end.
+
+  (* one pass of the `while found < found_min && block_offset_at_file_offset(fo) == 0` loop *)
+  Fixpoint bz2_syslines (fuel : nat) (bs : N) (f : file) (st : pst) (fo found found_min : N) : pst * N :=
+    match fuel with
+    | O => (st, found)
+    | S k =>
+        if (found <? found_min) && (block_offset_at_file_offset fo bs =? 0) then
+          match sib2_loop_a (S (length f)) bs f st fo with
+          | (st', SFound fo_next) => bz2_syslines k bs f st' fo_next (found + 1) found_min
+          | (st', SDone true) => (st', found + 1)
+          | (st', SDone false) => (st', found)
+          end
+        else (st, found)
+    end.
+
+  Record gate_out := mkOut {
+    g_res : gate_result;
+    g_row : option N;            (* the row every later line is parsed with (FileOk only) *)
+    g_found1 : N;                (* syslines found by the first pass *)
+    g_counts1 : counts;          (* dt_patterns_counts before dt_patterns_analysis *)
+    g_found : N;                 (* syslines found by the deciding pass *)
+    g_counts : counts;           (* dt_patterns_counts when blockzero_analysis returns *)
+    g_trace : list (counts * N * N) }.
+
+  Definition out_err (r : gate_result) : gate_out := mkOut r None 0 [] 0 [] [].
+
+  Definition gate2 (rows : list N) (bs : N) (f : file) : gate_out :=
+    let filesz := lenN f in
+    if filesz =? 0 then out_err FileErrEmpty
+    else
+      let blk0 := block bs f 0 in
+      let blocksz0 := lenN blk0 in
+      if blocksz0 <? N.min bytes_min bs then out_err FileErrTooSmall
+      else if all_zero (firstnN bytes_null_max blk0) then out_err FileErrNullBytes
+      else
+        match range_lookup line_min_map blocksz0, range_lookup sysline_min_map blocksz0 with
+        | Some lmin, Some smin =>
+            let fuel := S (length f) in
+            if bz_lines fuel bs f 0 0 lmin <? lmin then out_err FileErrNoLinesFound
+            else
+              let st0 := mkPst (counts_init rows) [] false [] in
+              let '(st1, found1) := bz2_syslines fuel bs f st0 0 0 smin in
+              if found1 =? 0
+              then mkOut FileErrNoSyslinesFound None found1 (p_counts st1) found1 (p_counts st1) (p_trace st1)
+              else
+                match analysis (p_counts st1) with
+                | None => mkOut FileErrNoSyslinesFound None found1 (p_counts st1) found1 (p_counts st1) (p_trace st1)
+                | Some c1 =>
+                    let '(st2, found) :=
+                      if 1 <? in_use (p_counts st1)
+                      then (* clear_syslines (both LRU caches emptied), found = 0, fo = 0, same loop *)
+                           bz2_syslines fuel bs f (mkPst c1 [] (p_panic st1) (p_trace st1)) 0 0 smin
+                      else (mkPst c1 (p_lru st1) (p_panic st1) (p_trace st1), found1) in
+                    let res := if p_panic st2 then GatePanic
+                               else if found <? smin then FileErrNoSyslinesFound else FileOk in
+                    mkOut res (match res with FileOk => chosen_row (p_counts st2) | _ => None end)
+                          found1 (p_counts st1) found (p_counts st2) (p_trace st2)
+                end
+        | _, _ => out_err GatePanic
+        end.
+End Gate2.
+
+(* the analysis over the per-row oracle, without the EZCHECK pre-filters *)
+Definition gate_rows (dated_by_row : N -> list N -> option Z) (rows : list N) (bs : N) (f : file)
+  : gate_result * option N :=
+  let o := gate2 (parse_plain dated_by_row) rows bs f in (g_res o, g_row o).
+
+(* ======================================================================================
+   find_datetime_in_line with the EZCHECK pre-filters (SyslineReader::ezcheck_slice)
+   ====================================================================================== *)
+
+Definition is_dig (b : N) : bool := (48 <=? b) && (b <=? 57).
+(* slice_contains_X_2(slice, b"12") *)
+Fixpoint contains_12 (s : list N) : bool :=
+  match s with b :: r => (b =? 49) || (b =? 50) || contains_12 r | [] => false end.
+(* slice_contains_D2_custom *)
+Fixpoint contains_d2_from (last_d : bool) (s : list N) : bool :=
+  match s with
+  | b :: r => if is_dig b then (if last_d then true else contains_d2_from true r) else contains_d2_from false r
+  | [] => false
+  end.
+Definition contains_d2 (s : list N) : bool := contains_d2_from false s.
+(* slice_contains_12_D2 *)
+Fixpoint contains_12_d2_from (last_d : bool) (s : list N) : bool :=
+  match s with
+  | b :: r => if (b =? 49) || (b =? 50) then true
+              else if is_dig b then (if last_d then true else contains_12_d2_from true r)
+              else contains_12_d2_from false r
+  | [] => false
+  end.
+Definition contains_12_d2 (s : list N) : bool := contains_12_d2_from false s.
+
+(* the EZCHECK state of one find_datetime_in_line call, and the reader's counters *)
+Record ezmin := mkEzmin { m12 : N; md2 : N; m12d2 : N }.
+Record ezcnt := mkEzcnt {
+  c_attempted : N;                               (* regex_captures_attempted *)
+  c12_hit : N; c12_miss : N; c12_hit_max : N;
+  cd2_hit : N; cd2_miss : N; cd2_hit_max : N;
+  c12d2_hit : N; c12d2_miss : N; c12d2_hit_max : N }.
+Definition ezcnt0 : ezcnt := mkEzcnt 0 0 0 0 0 0 0 0 0 0.
+
+(* one row of DATETIME_PARSE_DATAS as far as find_datetime_in_line needs it *)
+Record rowinfo := mkRowinfo { ri_start : N; ri_end : N; ri_year4 : bool; ri_d2 : bool }.
+
+Section Ez.
+  (* ORACLE: bytes_to_regex_to_datetime of row r on the slice handed to the regex *)
+  Variable match_slice : N -> list N -> option Z.
+  Variable info : N -> rowinfo.
+
+  (* the line-level oracle the analysis uses, derived as find_datetime_in_line slices the line *)
+  Definition dated_by_row_of (r : N) (line : list N) : option Z :=
+    let i := info r in
+    if lenN line <=? ri_start i then None
+    else let se := N.min (lenN line) (ri_end i) in
+         if se <=? ri_start i then None
+         else match_slice r (slice line (ri_start i) se).
+
+  (* ezcheck_slice: (skip the regex?, new minima, new counters) *)
+  Definition ezcheck_slice (i : rowinfo) (s : list N) (m : ezmin) (c : ezcnt) : bool * ezmin * ezcnt :=
+    match ri_year4 i, ri_d2 i with
+    | true, false =>
+        if negb (contains_12 (skipnN (N.min (m12 m) (lenN s)) s)) then
+          let m' := if (ri_start i =? 0) && (m12 m <? lenN s) then lenN s - 1 else m12 m in
+          (true, mkEzmin m' (md2 m) (m12d2 m),
+           mkEzcnt (c_attempted c) (c12_hit c + 1) (c12_miss c) (N.max (c12_hit_max c) m')
+                   (cd2_hit c) (cd2_miss c) (cd2_hit_max c) (c12d2_hit c) (c12d2_miss c) (c12d2_hit_max c))
+        else (false, m,
+              mkEzcnt (c_attempted c) (c12_hit c) (c12_miss c + 1) (c12_hit_max c)
+                      (cd2_hit c) (cd2_miss c) (cd2_hit_max c) (c12d2_hit c) (c12d2_miss c) (c12d2_hit_max c))
+    | false, true =>
+        if negb (contains_d2 (skipnN (N.min (md2 m) (lenN s)) s)) then
+          let m' := if (ri_start i =? 0) && (md2 m <? lenN s) then lenN s - 1 else md2 m in
+          (true, mkEzmin (m12 m) m' (m12d2 m),
+           mkEzcnt (c_attempted c) (c12_hit c) (c12_miss c) (c12_hit_max c)
+                   (cd2_hit c + 1) (cd2_miss c) (N.max (cd2_hit_max c) m') (c12d2_hit c) (c12d2_miss c) (c12d2_hit_max c))
+        else (false, m,
+              mkEzcnt (c_attempted c) (c12_hit c) (c12_miss c) (c12_hit_max c)
+                      (cd2_hit c) (cd2_miss c + 1) (cd2_hit_max c) (c12d2_hit c) (c12d2_miss c) (c12d2_hit_max c))
+    | true, true =>
+        if negb (contains_12_d2 (skipnN (N.min (m12d2 m) (lenN s)) s)) then
+          let m' := if (ri_start i =? 0) && (m12d2 m <? lenN s) then lenN s - 1 else m12d2 m in
+          (true, mkEzmin (m12 m) (md2 m) m',
+           mkEzcnt (c_attempted c) (c12_hit c) (c12_miss c) (c12_hit_max c)
+                   (cd2_hit c) (cd2_miss c) (cd2_hit_max c) (c12d2_hit c + 1) (c12d2_miss c) (N.max (c12d2_hit_max c) m'))
+        else (false, m,
+              mkEzcnt (c_attempted c) (c12_hit c) (c12_miss c) (c12_hit_max c)
+                      (cd2_hit c) (cd2_miss c) (cd2_hit_max c) (c12d2_hit c) (c12d2_miss c + 1) (c12d2_hit_max c))
+    | false, false => (false, m, c)
+    end.
+
+  Definition bump (f : ezcnt -> ezcnt) (c : ezcnt) := f c.
+
+  (* the `for index in parse_data_indexes` loop of find_datetime_in_line *)
+  Fixpoint fdl_loop (order : list N) (line : list N) (m : ezmin) (c : ezcnt) : option (Z * N) * ezcnt :=
+    match order with
+    | [] => (None, c)
+    | r :: t =>
+        let i := info r in
+        let len := lenN line in
+        if len <=? ri_start i then fdl_loop t line m c
+        else if len <=? m12 m then
+          fdl_loop t line m (mkEzcnt (c_attempted c) (c12_hit c + 1) (c12_miss c) (c12_hit_max c)
+                                     (cd2_hit c) (cd2_miss c) (cd2_hit_max c) (c12d2_hit c) (c12d2_miss c) (c12d2_hit_max c))
+        else if len <=? md2 m then
+          fdl_loop t line m (mkEzcnt (c_attempted c) (c12_hit c) (c12_miss c) (c12_hit_max c)
+                                     (cd2_hit c + 1) (cd2_miss c) (cd2_hit_max c) (c12d2_hit c) (c12d2_miss c) (c12d2_hit_max c))
+        else if len <=? m12d2 m then
+          fdl_loop t line m (mkEzcnt (c_attempted c) (c12_hit c) (c12_miss c) (c12_hit_max c)
+                                     (cd2_hit c) (cd2_miss c) (cd2_hit_max c) (c12d2_hit c + 1) (c12d2_miss c) (c12d2_hit_max c))
+        else
+          let se := N.min len (ri_end i) in
+          if se <=? ri_start i then fdl_loop t line m c
+          else
+            let s := slice line (ri_start i) se in
+            match ezcheck_slice i s m c with
+            | (true, m', c') => fdl_loop t line m' c'
+            | (false, m', c') =>
+                let c'' := mkEzcnt (c_attempted c' + 1) (c12_hit c') (c12_miss c') (c12_hit_max c')
+                                   (cd2_hit c') (cd2_miss c') (cd2_hit_max c') (c12d2_hit c') (c12d2_miss c') (c12d2_hit_max c') in
+                match match_slice r s with
+                | Some dt => (Some (dt, r), c'')
+                | None => fdl_loop t line m' c''
+                end
+            end
+    end.
+
+  (* find_datetime_in_line *)
+  Definition find_datetime_in_line (order : list N) (line : list N) (c : ezcnt) : option (Z * N) * ezcnt :=
+    if lenN line <? datetime_str_min then (None, c)
+    else fdl_loop order line (mkEzmin 0 0 0) c.
+
+  (* parse_datetime_in_line on the current counts, as coded *)
+  Definition parse_ez (c : counts) (line : list N) : option (Z * N) :=
+    fst (find_datetime_in_line (try_order c) line ezcnt0).
+End Ez.
+
+(* the analysis as coded: EZCHECK pre-filters included *)
+Definition gate_ez (match_slice : N -> list N -> option Z) (info : N -> rowinfo) (rows : list N) (bs : N) (f : file)
+  : gate_result * option N :=
+  let o := gate2 (parse_ez match_slice info) rows bs f in (g_res o, g_row o).
